@@ -177,8 +177,8 @@ type strState struct {
 
 // ToStr returns the toStr() form and "" — or a reason why the form is not defined.
 // onShared (may be nil) is told when a container is reachable twice without a
-// cycle: its text is then simply written twice (the text of a value is the text
-// of its contents; GUIDE: repr is "类似于python的同名函数").
+// cycle; the interpreter refuses such texts (undocumented), a nil callback
+// writes the container twice.
 func ToStr(v *Value, onShared func()) (string, string) {
 	st := &strState{onPath: map[any]bool{}, seen: map[any]bool{}, onShared: onShared}
 	var sb strings.Builder
